@@ -37,7 +37,8 @@ FRAGMENTS = [
     "\x00", "\x00\x00", "\U0001F600", "‮abc", "é", "１２３", "٣٤٥", " ", " ", " ", "﻿", "퟿", "\x1f", "\x7f", "\x85",
     "0", "07", "1", "00", "15", "0A", "ZZ", "99" + "F" * 40, "1" * 300, "f" * 301, "netconanRemoved0", "! Sensitive line SCRUBBED by netconan",
     "%s", "%(x)s", "{}", "{0}", "%", "%%", "<pre_shared_key>", "</pre_shared_key>", "PreSharedKey\": \"",
-    "password", "secret", "key", "community", "additive", "(1:2)", "$foo:$bar", "peeras:1",
+    "password", "secret", "key", "community", "additive", "(1:2)", "$foo:$bar", "peeras:1", "remote-as 65001", "as 64999 12", "65001", " 65001 ",
+    "$6$rounds=500$abcdefgh$" + "h" * 86, "$6$rounds=999$abcdefghijklmnop$" + "h" * 86, "$6$rounds=1000000000$ab$" + "h" * 86, "$6$rounds=0$ab$cd",
     "\u0130STANBUL-POP", "\u0131stanbul", "\u017fea", "\u212aiwi", "ZUR\u0130CH", "stra\u1e9ee", "\ufb01le", "\u01c5", "\u03a3\u03c2", "i\u0307stanbul", "$1$$x$y", "$1$$$", "$1$$a$b$c",
 ]
 LONG = ['"', "'", "[", "{", "]", "}", ";", ",", "\\'", '\\"', " ", "\t", "(", "a", "1", ":", ".", "$", "\\"]
@@ -94,7 +95,7 @@ def hostile_line(rng):
 def opts_for(salt, rng):
     return {"salt": salt, "words": rng.choice([["zurich"], ["x.y", "zz+w", "r|s", "a(b"], ["sea", "seattle"], ["\\d", "p[q", "j\\j"],
                                  ["istanbul", "sea", "kiwi", "zurich", "file", "strasse"], ["\u0130stanbul", "gro\xdfmann", "\u03c3"]]),
-            "asns": rng.choice([["65000"], ["1", "12", "123"], ["0", "4294967295"]]), "reserved": rng.choice([None, ["MyWord", "\\x"]]),
+            "asns": rng.choice([["65000"], ["1", "12", "123"], ["0", "4294967295"], ["65000", " 65001"], ["64999 ", "65000", "65000"], [" 12 "]]), "reserved": rng.choice([None, ["MyWord", "\\x"]]),
             "pp": rng.choice([None, [], ["0.0.0.0/0"]]), "pa": rng.choice([None, ["10.0.0.0/8"]]),
             "B4": rng.choice([None, 0, 8, 32]), "B6": rng.choice([None, 0, 8, 32, 128])}
 
